@@ -93,19 +93,5 @@ func (f *DoExternalSymbols) Call(s *slip.Scope, args slip.List, depth int) slip.
 	}
 	sort.Strings(names)
 
-	ss := s.NewScope()
-	ss.Block = true
-	forms := args[1:]
-	for _, name := range names {
-		ss.Let(sym, slip.Symbol(name))
-		for i := range forms {
-			if rr, ok2 := slip.EvalArg(ss, forms, i, d2).(*slip.ReturnResult); ok2 {
-				if rr.Tag == nil {
-					return rr.Result
-				}
-				return rr
-			}
-		}
-	}
-	return ss.Eval(rform, d2)
+	return doNames(s, sym, names, args[1:], rform, d2)
 }
